@@ -297,6 +297,10 @@ def r7_late_bound_constants(ctx, modules=None):
 from ..through_time import make_rule as _mk_tt
 _through_time = _mk_tt("C05")
 
+def _mutable_defaults(ctx):
+    from .c20 import r9_mutable_defaults
+    r9_mutable_defaults(ctx, ("bionumpy.bnpdataclass.lazybnpdataclass", "bionumpy.io.npdataclassreader", "bionumpy.io.delimited_buffers", "bionumpy.io.file_buffers", "bionumpy.io.one_line_buffer", "bionumpy.io.bam"))   # tables must not share an overlay / cache through a default argument
+
 RULES = [
     ("C05-R1", r1_aligned_views),
     ("C05-R2", r2_invalidation),
@@ -306,4 +310,5 @@ RULES = [
     ("C05-R6", r6_index_forwarding),
     ("C05-T1", _through_time),
     ("C05-R7", r7_late_bound_constants),
+    ("C05-R8", _mutable_defaults),
 ]
